@@ -47,23 +47,23 @@ func (f *Func) Root() *Func {
 
 // Prog is the loaded, type-checked program.
 type Prog struct {
-	Fset     *token.FileSet
-	Pkgs     []*packages.Package // root packages (non-test)
-	Ice      *packages.Package
-	Info     *types.Info // merged over root packages
-	Funcs    map[string]*Func
-	ByObj    map[*types.Func]*Func
-	ByLit    map[*ast.FuncLit]*Func
-	AllFuncs []*Func // deterministic order
-	Files    map[*ast.File]*packages.Package
-	RepoDir  string
-	Config   string // build configuration label
+	Fset             *token.FileSet
+	Pkgs             []*packages.Package // root packages (non-test)
+	Ice              *packages.Package
+	Info             *types.Info // merged over root packages
+	Funcs            map[string]*Func
+	ByObj            map[*types.Func]*Func
+	ByLit            map[*ast.FuncLit]*Func
+	AllFuncs         []*Func // deterministic order
+	Files            map[*ast.File]*packages.Package
+	RepoDir          string
+	Config           string // build configuration label
 	NumPkgsInClosure int
 
 	// lazily built
-	cg      *CallGraph
-	effects map[*Func]*Effects
-	defs    map[*Func]map[types.Object][]ast.Node
+	cg        *CallGraph
+	effects   map[*Func]*Effects
+	defs      map[*Func]map[types.Object][]ast.Node
 	ifaceUsed map[*types.TypeName]bool
 }
 
